@@ -380,3 +380,61 @@ def client_errors_wrapped(chk, prefix):
             else:
                 chk.prove(f"{prefix}.client.{meth}.errors_wrapped", s.pc, isinstance(v, Ref) and getattr(v.cls, "name", "") == errcls and bool(failed) and s.get(v).get("__wrapped__") == failed[-1].exc,
                           desc=f"every Exception raised by the API call or by parsing its response leaves {meth} as {errcls}.from_exception(that exception)")
+
+
+# ------------------------------------------------------------------------------------------------ CheckpointError classification
+def checkpoint_error_classification(chk, prefix="C06"):
+    """CheckpointError.from_exception / is_retriable against the classification the code documents: a 4xx answer other than 429 with an error
+    body is an EXECUTION-category error (is_retriable() True: the wrapper re-raises it for a Lambda retry) unless it is
+    InvalidParameterValueException with a message starting 'Invalid Checkpoint Token'; everything else (5xx, 429, no status, no error body) is
+    INVOCATION-category (FAILED without retry)."""
+    class H(Hooks):
+        def exc_attr(self, eng, st, ref, name):
+            if name == "response":
+                s2 = st.fork()
+                out = eng.raise_ext(s2, "AttributeError", "response")  # the exception has no response attribute -> getattr default {}
+                code, msg, status = (eng.sym_of_type("str | None", "Code", st), eng.sym_of_type("str | None", "Message", st), eng.sym_of_type("int | None", "HTTPStatusCode", st))
+                err = st.alloc("dict", {"__kind__": "dict", "open": False, "e": {"Code": (z3.Bool("has_code"), code), "Message": (z3.Bool("has_message"), msg)}})
+                meta = st.alloc("dict", {"__kind__": "dict", "open": False, "e": {"HTTPStatusCode": (z3.Bool("has_status"), status)}})
+                resp = st.alloc("dict", {"__kind__": "dict", "open": False, "e": {"Error": (z3.Bool("has_error"), err), "ResponseMetadata": (z3.Bool("has_meta"), meta)}})
+                st.ghost["resp"] = {"code": code, "msg": msg, "status": status}
+                st.setfield(ref, "response", resp)
+                return [("val", resp, st)] + out
+            return Hooks.exc_attr(self, eng, st, ref, name)
+    eng = Engine(hooks=H())
+    P = eng.program
+    st = St()
+    cls = P.cls("exceptions.CheckpointError")
+    chk.function("exceptions.CheckpointError.from_exception")
+    chk.function("exceptions.CheckpointError.is_retriable")
+    chk.function("exceptions.BotoClientError.from_exception")
+    exc = eng.new_symexc(st, "client_error")
+    cat_cls = P.cls("exceptions.CheckpointErrorCategory")
+    CAT = enum_sort(cat_cls)[1]
+    for k, v, s in eng.run(cls.find_method("from_exception"), [ClassRef(cls), exc], st=st):
+        chk.paths += 1
+        if k != "val" or not isinstance(v, Ref):
+            chk.prove(f"{prefix}.exec.is_retriable", s.pc, F, desc="CheckpointError.from_exception does not raise")
+            continue
+        cat = s.get(v)["error_category"]
+        g = s.ghost.get("resp")
+        if g is None:
+            spec_exec = F
+        else:
+            hs, he, hm, hc, hmsg = (z3.Bool(n) for n in ("has_status", "has_error", "has_meta", "has_code", "has_message"))
+            status_none = z3.Or(z3.Not(hm), z3.Not(hs), is_none(g["status"]))
+            stv = zint_(strip_opt(g["status"]))
+            code_is_ipv = z3.And(hc, z3.Not(is_none(g["code"])), ops.zstr(strip_opt(g["code"])) == z3.StringVal("InvalidParameterValueException"))
+            msg_is_token = z3.And(hmsg, z3.Not(is_none(g["msg"])), z3.PrefixOf(z3.StringVal("Invalid Checkpoint Token"), ops.zstr(strip_opt(g["msg"]))))
+            error_body = z3.And(he, z3.Or(hc, hmsg))  # a non-empty Error dict
+            spec_exec = z3.And(z3.Not(status_none), stv >= 400, stv < 500, stv != 429, error_body, z3.Not(z3.And(code_is_ipv, msg_is_token)))
+        for k2, v2, s2 in eng.call_func(cls.find_method("is_retriable"), [v], {}, s):
+            got = z3.BoolVal(v2) if isinstance(v2, bool) else zbool(v2)
+            chk.prove(f"{prefix}.exec.is_retriable", s2.pc, z3.And(got == spec_exec, (cat.t == CAT["EXECUTION"]) == spec_exec),
+                      desc="classification table of checkpoint failures by HTTP status, error code and message prefix (as documented in the code): is_retriable() iff 4xx (not 429) with an error body that is not 'InvalidParameterValueException: Invalid Checkpoint Token...'",
+                      sample="CheckpointError.from_exception over an arbitrary botocore-style response")
+
+
+def zint_(v):
+    from pyvc.values import zint
+    return zint(v) if v is not None else z3.IntVal(0)
